@@ -808,6 +808,16 @@ def install(I):
                   z3.ForAll([i], z3.Implies(z3.And(0 <= i, i < n), z3.And(0 <= perm(i), perm(i) < n, inv(perm(i)) == i,
                                                                            teq(tselect(res[1], i), spec.elt(perm(i)).tree)))),
                   z3.ForAll([i], z3.Implies(z3.And(0 <= i, i < n), z3.And(0 <= inv(i), inv(i) < n, perm(inv(i)) == i)))]
+            # the same fact triggered by the *source* element at i (so that "x is in the source" reaches "x is in the result")
+            try:
+                src_leaf = list(core.tleaves(spec.elt(i).tree))[0]
+                if z3.is_app(src_leaf) and not z3.is_const(src_leaf) and any(z3.eq(i, c) for c in src_leaf.children()):
+                    ax.append(z3.ForAll([i], z3.Implies(z3.And(0 <= i, i < n),
+                                                        z3.And(0 <= inv(i), inv(i) < n, perm(inv(i)) == i,
+                                                               teq(tselect(res[1], inv(i)), spec.elt(i).tree))),
+                                        patterns=[src_leaf]))
+            except (TypeError, AttributeError, IndexError, z3.Z3Exception):
+                pass
             def keyof(idx):
                 e = SV(ek, tselect(res[1], idx))
                 if key is None:
